@@ -468,7 +468,7 @@ func (k *checker) exact(tag string, mfs []*dto.MetricFamily, gerr error, rm *met
 			continue
 		}
 		if mf == nil {
-			k.bad(k.nameKind(in, ref, mfs), "%s: instrument %d (%s %q unit %q): no family named %s among %v", tag, i, in.Kind, in.Name, in.Unit, strings.Join(quoteAll(ref.cands), " | "), familyNames(mfs))
+			k.bad(k.nameKind(in, ref, mfs), "%s: instrument %d (%s %q unit %q): no family named %s among %v", tag, i, in.Kind, clip(in.Name), in.Unit, strings.Join(quoteAll(ref.cands), " | "), familyNames(mfs))
 			continue
 		}
 		wantType := dto.MetricType_GAUGE
@@ -642,24 +642,27 @@ func (k *checker) nameKind(in *Inst, ref nameRef, mfs []*dto.MetricFamily) strin
 			continue
 		}
 		head, tail := n[:i], n[i+len(stem):]
-		u := ref.unitWord
+		u, dn := ref.unitWord, delimClass(in.Name)
+		body := tail
+		if ref.wantTotal {
+			body = strings.TrimSuffix(tail, "_total")
+		}
+		off := unitWords[in.Unit] // the word a disabled unit rule would have added
 		switch {
-		case ref.wantTotal && !strings.HasSuffix(tail, "_total"):
-			return "total_suffix_missing_or_not_last"
-		case ref.wantTotal && strings.HasSuffix(tail, "_total_total") && !strings.HasSuffix(delimClass(in.Name), "_total_total"):
-			return "total_suffix_doubled"
-		case !ref.wantTotal && strings.HasSuffix(tail, "_total") && !strings.HasSuffix(delimClass(in.Name), "_total"):
-			return "total_suffix_unwanted"
-		case u != "" && strings.Contains(tail, u+"_"+u) && !strings.Contains(delimClass(in.Name), u+"_"+u):
-			return "unit_suffix_doubled"
-		case u != "" && !strings.Contains(tail, u) && !strings.Contains(stem, u):
-			return "unit_suffix_missing"
-		case u != "" && ref.wantTotal && strings.HasSuffix(tail, "_total_"+u+"_total"):
-			return "unit_suffix_after_total"
-		case u == "" && in.Unit != "" && tail != "" && tail != "_total":
-			return "unit_suffix_unwanted"
 		case head != delimClass(nsPrefix(c)):
 			return "namespace_prefix"
+		case ref.wantTotal && !strings.HasSuffix(tail, "_total"):
+			return "total_suffix_missing_or_not_last"
+		case ref.wantTotal && strings.HasSuffix(body, "_total") && !strings.HasSuffix(dn, "_total_total"):
+			return "total_suffix_doubled"
+		case !ref.wantTotal && strings.HasSuffix(tail, "_total") && !strings.HasSuffix(dn, "_total"):
+			return "total_suffix_unwanted"
+		case u != "" && strings.HasSuffix(body, u+"_"+u) && !strings.Contains(dn, u+"_"+u):
+			return "unit_suffix_doubled"
+		case u != "" && !strings.HasSuffix(stem+body, u):
+			return "unit_suffix_missing_or_misplaced"
+		case u == "" && off != "" && strings.HasSuffix(body, "_"+off) && !strings.Contains(dn, off):
+			return "unit_suffix_unwanted"
 		}
 		return "family_name"
 	}
